@@ -156,6 +156,23 @@ def iirRun (o : Ops α) (taps : List α) : List α → List α → Option (List 
     | none => none
     | some (buf', y) => (iirRun o taps buf' xs).map (y :: ·)
 
+/-- `IirFilter::filter_clamped`: the clamped value is what is returned AND what is fed back. -/
+def iirClampStep (o : Ops α) (clamp : α → α) (taps : List α) (buf : List α) (x : α) : Option (List α × α) :=
+  match taps with
+  | [] => none
+  | t0 :: _ =>
+    let y := clamp ((List.range buf.length).foldl
+      (fun acc i => o.add acc (o.mul (buf.reverse.getD i o.zero) (taps.getD (i + 1) o.zero))) (o.mul t0 x))
+    let buf' := buf ++ [y]
+    some (if buf'.length = taps.length then buf'.drop 1 else buf', y)
+
+def iirClampRun (o : Ops α) (clamp : α → α) (taps : List α) : List α → List α → Option (List α)
+  | _, [] => some []
+  | buf, x :: xs =>
+    match iirClampStep o clamp taps buf x with
+    | none => none
+    | some (buf', y) => (iirClampRun o clamp taps buf' xs).map (y :: ·)
+
 /-- `SinglePoleIir::filter`: `sample * alpha + prev * one_minus_alpha`. -/
 def singlePole (o : Ops α) (alpha oneMinus prev x : α) : α := o.add (o.mul x alpha) (o.mul prev oneMinus)
 
@@ -257,6 +274,11 @@ def fastFm (st : C32 × C32) (s : C32) : (C32 × C32) × Float32 :=
   let top := (s.2 - q2.2) * q1.1
   let bottom := (s.1 - q2.1) * q1.2
   ((s, q1), top - bottom)
+
+/-- `f32::clamp(min, max)` (its `assert!(min <= max)` is checked by the caller of this model). -/
+def clampF32 (mi mx x : Float32) : Float32 :=
+  let x := if x < mi then mi else x
+  if x > mx then mx else x
 
 def dspSync (name : String) (p : List Nat) : Option SyncSpec :=
   match name, p with
